@@ -128,9 +128,9 @@ Lemma step_currents r n o :
   st (fst (step_r r n o)) <> Stable ->
   curL (fst (step_r r n o)) = curL n /\ curR (fst (step_r r n o)) = curR n.
 Proof.
-  destruct o as [id|id|d|d|]; cbn; intro Hns.
+  destruct o as [id|id sn|d|d|]; cbn; intro Hns.
   - destruct (create_offer_slots n id) as [_ [_ [Hcl [_ [Hcr _]]]]]. auto.
-  - destruct (create_answer_slots n id) as [_ [_ [Hcl [_ [Hcr _]]]]]. auto.
+  - destruct (create_answer_slots n id sn) as [_ [_ [Hcl [_ [Hcr _]]]]]. auto.
   - destruct (set_local r n d) as [n' res] eqn:E. cbn in *.
     apply set_local_cases in E. destruct E as [[E _] | [E _]]; [subst; auto|].
     eapply set_description_currents; eassumption.
